@@ -9,13 +9,14 @@ COQ_HEADER = "From Plotink Require Import Base.Prelude Model.Simplify Model.Subd
 COQ_RUN = "run10"
 COQ_CASE_TYPE = "case10"
 SHARD = 60
+CASE_TIMEOUT = 8        # a call that does not return within 8 s counts as non-terminating (ordinary cases: milliseconds)
 RULE = ("node lists of 1..6 nodes: control points on a quarter-integer grid in [-64, 64] (the float run is then exact and is compared node for node with the "
         "exact model), and general floats (judged by the refinement checker with eps = 1e-9 x scale): loops, cusps, coincident endpoints, already-flat pieces, "
-        "handles overshooting the chord; flatness from 1/4 to 64; non-trivial = at least one piece was split")
+        "handles overshooting the chord; small shapes (handles of a few 2^-11) translated to +-2^20 / 10^6 with flatness 2^-13..2^-10; flatness from 1/4 to 64; non-trivial = at least one piece was split")
 TRUSTED = ["on the quarter-integer grid every float operation of the run is exact (values stay below 2^53 ulp) so float = rational",
            "the refinement checker of Corr/C10.v (dyadic subdivision tree matching) is an executable specification; for exact runs it is evaluated with eps = 0",
            "ink_extensions.bezmisc.beziersplitatt is dependency code, modelled (tpoint at 0.5)"]
-ASSUMPTIONS = ["finite control points; flatness > 0", "termination is not proved: the model runs with fuel 4000 and the deepest observed subdivision is recorded"]
+ASSUMPTIONS = ["finite control points; flatness > 0", "the model runs with fuel 4000 (termination is proved: C10_terminates; the budget only bounds the evaluation)"]
 
 def _pt(rng, mode):
     if mode == "grid": return (F(rng.randint(-256, 256), 4), F(rng.randint(-256, 256), 4))
@@ -37,9 +38,27 @@ def _nodes(rng, mode):
         a, b = out[0][1], out[1][1]; out[0][2] = ((3 * a[0] + b[0]) / 4, (3 * a[1] + b[1]) / 4); out[1][0] = ((a[0] + 3 * b[0]) / 4, (a[1] + 3 * b[1]) / 4)
     return out
 
+def _far_nodes(rng):
+    """a small shape far from the origin: handles a few 2^-11 long on nodes near (+-2^20, +-2^20) - flatness is an absolute distance,
+    so the same shape must be subdivided the same way wherever it lies (all values dyadic: the float run stays exact)"""
+    ox, oy = rng.choice([2**20, -2**20, 3 * 2**18, 10**6, 0]), rng.choice([2**20, -2**20, 10**6, 0, 7])
+    u = F(1, 2**11)
+    n = rng.choice([2, 2, 3, 4]); out = []
+    x = F(ox); y = F(oy)
+    for _ in range(n):
+        p = (x, y)
+        hi = (p[0] + rng.randint(-3, 3) * u, p[1] + rng.randint(-3, 3) * u)
+        ho = (p[0] + rng.randint(-3, 3) * u, p[1] + rng.randint(-3, 3) * u)
+        out.append([hi, p, ho])
+        x += rng.choice([1, 2, F(1, 4), -1]); y += rng.choice([0, 0, 1, F(1, 2), -2])
+    return out
+
 def generate(rng, tier):
     n = 260 if tier == "quick" else 5000
     cases = []
+    for _ in range(n // 6):
+        nodes = _far_nodes(rng)
+        cases.append({"nodes": nodes, "flat": F(1, 2 ** rng.choice([13, 12, 11, 10])), "exact": True, "family": "far-from-origin/n=%d" % len(nodes)})
     for _ in range(n):
         mode = "grid" if rng.random() < 0.6 else "float"
         nodes = _nodes(rng, mode)
